@@ -33,7 +33,8 @@ Conforms(e) ==
 \* after the first non-conforming event of a history the rest of that history is not judged
 Next == /\ l <= TraceLen
         /\ LET e == TraceLog[l] IN
-           IF IsStart(e) \/ ~bad
+           IF e.op = "conc" THEN UNCHANGED <<tree, bad>>      \* concurrent rounds are judged by the monitor only
+           ELSE IF IsStart(e) \/ ~bad
            THEN IF Conforms(e)
                 THEN tree' = ToTree(e.after) /\ bad' = FALSE
                 ELSE Drift(l, e.op) /\ tree' = ToTree(e.after) /\ bad' = TRUE
